@@ -1,6 +1,16 @@
 """Per-property check configuration for ./check (harness lists, bounds, stated assumptions)."""
 
 FH = "./runner/ptrace/filehandler"
+LS = "./pkg/seccomp/libseccomp"
+PT = "./ptracer"
+US = "./runner/unshare"
+CT = "./container"
+RP = "./runner/ptrace"
+FE = "./pkg/forkexec"
+
+SYMEX_NOTE = ("Trusted: the symgo interpreter's SSA semantics (checked by native replay of counterexamples and concrete self-tests), z3's verdicts "
+              "(unknown/timeout/error never count as success), and the reference definitions/oracles written in the harness. ")
+
 
 PROPS = {}
 HOOK_COMMITS = []
@@ -37,5 +47,68 @@ PROPS["C18"] = dict(
         dict(pkg=FH, run="^VerifC18_Cascade_T2$", tiers=["thorough"], replay="native", timeout=3000),
         dict(pkg=FH, run="^VerifC18_Cascade_T3$", tiers=["thorough"], replay="native", timeout=1800),
         dict(pkg=FH, run="^VerifC18_Cascade_T4$", tiers=["thorough"], replay="native", timeout=1800),
+    ],
+)
+
+PROPS["C01"] = dict(
+    level="translation_validation",
+    level_text=("Translation validation of the generated seccomp program: the real Builder.Build -> go-seccomp-bpf Policy.Assemble -> x/net/bpf.Assemble "
+                "-> sockFilter -> SockFprog pipeline is executed symbolically (syscall numbers of the policy, the 32-bit Default word, nr, arch, ip and the "
+                "six argument words are SMT variables) and the resulting []SockFilter is run through a model of the kernel's cBPF evaluator; z3 shows the "
+                "returned action equals the policy's for all 2^32 numbers x all arch tags per policy shape. One symbolic run covers every policy with "
+                "|allow|=k,|trace|=m; shapes crossing the 255-instruction short-jump limit are validated with concrete numbers and symbolic inputs."),
+    level_note=SYMEX_NOTE + "The 90-line cBPF evaluator/validator in the harness stands for the kernel (seccomp_check_filter instruction subset).",
+    technique="symbolic execution of the filter generator + symbolic cBPF evaluation, z3 (translation validation per policy shape)",
+    explanation=("Real code Build/ToSeccompAction/ExportBPF/sockFilter/SockFprog + interpreted go-seccomp-bpf and x/net/bpf; symbolic policy numbers, default word, "
+                 "and filter input; oracle = policy semantics from the property; cleanTrace checked for disjointness/precedence with symbolic names."),
+    bounds={"symbolic-number policy shapes (k allow, m trace)": "quick and thorough: (0,0),(1,0),(0,1),(1,1),(2,1),(2,2),(3,2), numbers pairwise distinct < 2^30",
+            "concrete-number shapes": "quick: (40,0); thorough adds (80,0),(130,130),(255,1),(256,0),(300,60) (numbers 3i+1), nr/arch/default/args symbolic",
+            "cleanTrace": "<=3 allow and <=3 trace names, each a 2-byte symbolic string"},
+    outside=["argument-conditioned rules (the repo never emits them)", "non-amd64 build targets", "policies larger than the listed shapes",
+             "that the kernel's BPF interpreter matches the model beyond the instruction subset used"],
+    assumptions=["arch.GetInfo stub returns an x86-64 Info whose name table maps placeholder names to symbolic numbers",
+                 "kernel cBPF semantics as modelled in evalSeccompBPF/kernelAccepts"],
+    programs_fn=lambda rs: len(rs),
+    harnesses=[dict(pkg=LS, run="^VerifC01_%s$" % n, tiers=["quick", "thorough"], replay="model",
+                    reach=(["foreign-arch", "x32", "default"] + (["allow"] if not n.startswith("k0") else []) + (["trace"] if not n.endswith("m0") else [])))
+               for n in ["k0m0", "k1m0", "k0m1", "k1m1", "k2m1", "k2m2", "k3m2", "k40m0"]] +
+              [dict(pkg=LS, run="^VerifC01_%s$" % n, tiers=["thorough"], replay="model", timeout=3000) for n in ["k80m0", "k130m130", "k255m1", "k256m0", "k300m60"]] +
+              [dict(pkg="./cmd/runprog/config", run="^VerifC01_CleanTrace$", tiers=["quick", "thorough"], replay="native", reach=["traced", "overlap"])],
+)
+
+PROPS["C09"] = dict(
+    level="other",
+    level_text=("Bounded symbolic execution of the three classification sites (ptracer handle(), unshare.Run's wait loop incl. canceller goroutine, container "
+                "convertReply composed with host convertReplyResult) with the full 32-bit wait-status word, rusage and limits symbolic; z3 discharges the README "
+                "status table on every path. Full 2^32 status space, one terminal event."),
+    level_note=SYMEX_NOTE + "wait4/kill/ptrace are stubs returning the symbolic event; forkexec Start is stubbed in the unshare harness.",
+    explanation=("handle()/Run()/convertReply()/convertReplyResult() executed symbolically over all wait-status words; oracle = README table written from wait(2) macros."),
+    bounds={"status word": "all 2^32 values", "events": "one terminal event for the main process; one event for a secondary process (ptrace)",
+            "schedules (unshare.Run)": "all interleavings of the canceller goroutine under preemption bound 2"},
+    outside=["sequences of >1 event (covered for ptrace under C03/C15)", "real kernel producing the status"],
+    assumptions=["wait4 without WUNTRACED reports only terminated children (unshare/container)"],
+    harnesses=[
+        dict(pkg=PT, run="^VerifC09_PtraceHandleMain$", replay="model", reach=["exited", "signaled", "stopped"]),
+        dict(pkg=PT, run="^VerifC09_PtraceHandleSecondary$", replay="model", reach=["exited", "signaled"]),
+        dict(pkg=US, run="^VerifC09_UnshareRun$", replay="model", reach=["exited", "signaled", "over-limit"]),
+        dict(pkg=CT, run="^VerifC09_ContainerReply$", replay="model", reach=["exited", "signaled", "not-terminated"]),
+        dict(pkg=CT, run="^VerifC09_ContainerReplyErrors$", replay="model", reach=["wait-error", "transport-error", "empty-reply", "error-reply"]),
+    ],
+)
+
+PROPS["C08"] = dict(
+    level="other",
+    level_text=("Bounded symbolic execution: PrepareRLimit with all seven 64-bit fields symbolic against a per-resource specification; checkUsage and the unshare "
+                "usage comparison with symbolic rusage/limits (unit conversions proved wrap-free for sec<2^33, maxrss<2^53); SIGXCPU/SIGXFSZ delivery stops."),
+    level_note=SYMEX_NOTE + "That the kernel enforces a limit it was given is outside (contract).",
+    explanation="PrepareRLimit/getRlimit, Tracer.checkUsage, ptraceHandle.handle (signal stops), unshare.Run usage check executed symbolically; oracle in harness.",
+    bounds={"RLimits": "all 2^(7*64+1) records", "rusage": "sec < 2^33, usec < 10^6, maxrss < 2^53", "stop signals": "1..64 except SIGTRAP"},
+    outside=["kernel enforcement of rlimits", "prlimit64 loop in the child and the output pipe collector (see C04/C07 machinery; not yet claimed here)"],
+    assumptions=[],
+    harnesses=[
+        dict(pkg="./pkg/rlimit", run="^VerifC08_PrepareRLimit$", replay="native", reach=["configured", "unconfigured"]),
+        dict(pkg=PT, run="^VerifC08_CheckUsage$", replay="model", reach=["mle", "tle", "within", "both"]),
+        dict(pkg=PT, run="^VerifC08_PtraceLimitSignals$", replay="model", reach=["xcpu", "xfsz", "other"]),
+        dict(pkg=US, run="^VerifC08_UnshareUsage$", replay="model", reach=["over-limit", "exited", "signaled"]),
     ],
 )
